@@ -316,11 +316,14 @@ Proof.
       rewrite cu_setq_call in IN by auto. rewrite LZ. apply in_app_or in IN as [IN|[<-|[]]]; [right; apply F; auto | left; reflexivity].
   - (* a plain closure submitted *)
     destruct (IHE m k0 MM JJ) as (m1 & M1 & J1 & L1).
-    assert (KR : krel (ESub q (ci_uid ci) (ci_call ci)) = false) by (rewrite H; destruct q; reflexivity).
-    destruct (mon6_irrel _ _ _ M1 KR) as (m2 & M2 & S2).
+    assert (MX : exists m2, mon6 (ESub q (ci_uid ci) (ci_call ci) :: tr s1) = Some m2 /\ same6 m1 m2).
+    { destruct q; try (apply mon6_irrel; auto; rewrite H; reflexivity).
+      exists (mk06c (k_calls m1) (k_tgt m1) (k_prep m1) (k_lazyon m1) (k_since m1)).
+      split; [unfold mon6 in *; simpl; rewrite M1, H; reflexivity | repeat split]. }
+    destruct MX as (m2 & M2 & S2).
     exists m2. split; [unfold submit; destruct q; exact M2|]. split.
     + assert (CP : cu (ci_setq ci q) = []) by (apply cu_plain; rewrite call_setq; auto).
-      destruct q; try (j6same).
+      destruct q; try (eapply J6_same; eauto; reflexivity).
       eapply J6_same with (s := s1) in J1; [|exact S2 | reflexivity | reflexivity].
       destruct J1 as [A B C D F]. constructor; auto.
       * unfold calls_in, submit, push_main. simpl. rewrite qcu_app. simpl. rewrite CP. simpl. rewrite app_nil_r. exact A.
@@ -333,6 +336,11 @@ Proof.
     + unfold calls_in, push_main. simpl. rewrite qcu_app. simpl. rewrite cu_internal by auto. simpl. rewrite app_nil_r. exact A.
     + intros LZ v IN. unfold push_main in IN. simpl in IN. rewrite qcu_app in IN. simpl in IN. rewrite cu_internal in IN by auto.
       simpl in IN. rewrite app_nil_r in IN. auto.
+  - (* a plain closure dropped un-run *)
+    destruct (IHE m k0 MM JJ) as (m1 & M1 & J1 & L1).
+    exists (mk06c (k_calls m1) (k_tgt m1) (k_prep m1) (k_lazyon m1) (k_since m1)).
+    split; [unfold mon6 in *; simpl; rewrite M1; reflexivity|]. split; [|exact L1].
+    eapply J6_same with (s := s1); [exact J1 | repeat split | reflexivity | reflexivity].
 Qed.
 
 (* ------------------------------------------------------------------ *)
